@@ -4,6 +4,8 @@ import AioftpModel.Driver.Codec
 import AioftpModel.Model.Paths
 import AioftpModel.Driver.Session
 import AioftpModel.Driver.Lifecycle
+import AioftpModel.Driver.Perms
+import AioftpModel.Driver.Logs
 
 open Codec Model Py
 
@@ -44,6 +46,8 @@ structure DState where
 def handlePure : List String → Option String
   | "paths" :: rest => handlePaths rest
   | "life" :: rest => DriverLifecycle.handleLife rest
+  | "perms" :: rest => DriverPerms.handlePerms rest
+  | "logs" :: rest => DriverLogs.handleLogs rest
   | _ => none
 
 def handle (st : DState) (line : String) : DState × String :=
